@@ -104,9 +104,9 @@ def ensure_facts(verbose=True):
             shutil.rmtree(fdir, ignore_errors=True)
             raise SystemExit('nv: fact extraction wrote no facts for: %s' % missing)
         open(os.path.join(fdir, 'OK'), 'w').write(th)
-        # keep only the three most recent fact sets
+        # keep only the most recent fact sets
         allsets = sorted(glob.glob(os.path.join(CACHE, 'facts', '*')), key=os.path.getmtime)
-        for old in allsets[:-8]:
+        for old in allsets[:-24]:
             shutil.rmtree(old, ignore_errors=True)
         dt = time.time() - t0
         if verbose:
@@ -313,7 +313,8 @@ def _inline_into(d, callee_of, depth, stack):
     promoted = list(d.get('promoted', []))
     inlined = []
     i = 0
-    while i < len(bbs):
+    n0 = len(bbs)   # the appended blocks are already inlined to depth-1: rescanning them would unroll recursion without bound
+    while i < n0:
         t = bbs[i]['t']
         if t[0] == 'call' and not bbs[i]['cleanup']:
             g = callee_of.get(t[2])
@@ -465,19 +466,49 @@ def rename_map(fdir):
             return out
         # callee / caller names are compared through the aliases found so far (a renamed callee of a renamed caller)
         cand = {}
-        for n in newn:
+        for n in (newn if os.environ.get('NV_UNSORTED') else sorted(newn)):
             f = cur[n]
             import zlib
             cand[n] = (zlib.crc32('|'.join(f.locals[:f.argc + 1]).encode()) & 0xffffffff, len(f.bbs),
                        {_h16(x) for x in callees_through(n)}, {_h16(x) for x in callers_through(n)})
         taken = set()
-        for m_ in sorted(gone):
-            ms = sigs[m_]
-            mcallers = ms[3] if len(ms) > 3 else []
-            best, best_sc, second, second_n = None, 0.0, 0.0, None
-            for n, ns in cand.items():
-                if n in taken:
+        # the old side is looked through functions that are gone themselves, as the new side is looked through functions that are
+        # new: both sides are then compared in terms of the functions that exist on both trees
+        gone_h = {_h16(n): n for n in gone}
+
+        def old_through(m0, idx, depth=2, seen=None):
+            seen = seen if seen is not None else set()
+            out = set()
+            if m0 in seen:
+                return out
+            seen.add(m0)
+            ent = sigs[m0]
+            for h in (ent[idx] if len(ent) > idx else []):
+                if h in gone_h and depth > 0:
+                    out |= old_through(gone_h[h], idx, depth - 1, seen)
+                else:
+                    out.add(h)
+            return out
+        def through_size(n0):
+            seen_, work_, tot = set(), [n0], 0
+            while work_:
+                x = work_.pop()
+                if x in seen_ or x not in cur:
                     continue
+                seen_.add(x)
+                tot += len(cur[x].bbs)
+                for bb in cur[x].bbs:
+                    if bb['t'][0] == 'call' and bb['t'][2] in newn:
+                        work_.append(bb['t'][2])
+            return tot
+        # score every (gone, new) pair once, then assign globally: the best-scoring pair first, so that a function that merely
+        # vanished (merged into its caller) cannot take the successor of a function that was renamed
+        score = {}
+        for m_ in sorted(gone):
+            ms = list(sigs[m_])
+            ms[2] = old_through(m_, 2)
+            mcallers = old_through(m_, 3)
+            for n, ns in cand.items():
                 ce, cr_ = jac(ms[2], ns[2]), jac(mcallers, ns[3])
                 parts = [x for x in (ce, cr_) if x is not None]
                 if not parts:
@@ -487,32 +518,30 @@ def rename_map(fdir):
                     sc += 0.15
                 if n.rsplit('::', 1)[-1] == m_.rsplit('::', 1)[-1] or n.rsplit('::', 1)[0] == m_.rsplit('::', 1)[0]:
                     sc += 0.1
-                if sc > best_sc:
-                    best, best_sc, second, second_n = n, sc, best_sc, best
-                elif sc > second:
-                    second, second_n = sc, n
-            if best is not None and best_sc >= 0.6 and best_sc - second < 0.1 and second_n is not None:
+                if os.environ.get('NV_DEBUG_RENAME') == '2':
+                    print('  SC', m_.rsplit('::', 1)[-1], n.rsplit('::', 1)[-1], round(sc, 3), ce, cr_, file=sys.stderr)
+                score[(m_, n)] = sc
+        open_m = set(gone)
+        while open_m:
+            pairs = sorted(((sc, m_, n) for (m_, n), sc in score.items() if m_ in open_m and n not in taken), key=lambda x: (-x[0], x[1], x[2]))
+            if not pairs or pairs[0][0] < 0.6:
+                break
+            best_sc, m_, best = pairs[0]
+            open_m.discard(m_)
+            rest = [(sc, n) for sc, mm, n in pairs[1:] if mm == m_]
+            second, second_n = rest[0] if rest else (0.0, None)
+            if best_sc - second < 0.1 and second_n is not None:
                 # two candidates look alike because one is a new wrapper around the other (an extracted caller, or a dispatcher
                 # whose arms were split out): the renamed function is the one whose size, counted with the new helpers it
                 # calls, is closest to the old function's
-                def through_size(n0):
-                    seen_, work_, tot = set(), [n0], 0
-                    while work_:
-                        x = work_.pop()
-                        if x in seen_ or x not in cur:
-                            continue
-                        seen_.add(x)
-                        tot += len(cur[x].bbs)
-                        for bb in cur[x].bbs:
-                            if bb['t'][0] == 'call' and bb['t'][2] in newn:
-                                work_.append(bb['t'][2])
-                    return tot
-                d1, d2 = abs(through_size(best) - ms[1]), abs(through_size(second_n) - ms[1])
+                d1, d2 = abs(through_size(best) - sigs[m_][1]), abs(through_size(second_n) - sigs[m_][1])
                 if d2 * 2 < d1:
                     best, second = second_n, 0.0
                 elif d1 * 2 < d2:
                     second = 0.0
-            if best is not None and best_sc >= 0.6 and best_sc - second >= 0.1:
+            if os.environ.get('NV_DEBUG_RENAME'):
+                print('RENAME', m_, '->', best, round(best_sc, 3), 'second', second_n, round(second, 3), file=sys.stderr)
+            if best_sc - second >= 0.1:
                 amap[best] = m_
                 taken.add(best)
     _aliases[fdir] = amap
